@@ -42,21 +42,19 @@ Record item := mkItem {
   it_enc : option (list bool) (* Some: written bits (instruction / data); None: label *) }.
 
 (* ------------------------------------------------------------------ check_bank_overlap *)
+(* fn ends_after(outp, size, other) = outp.checked_add(size).map_or(true, |end| end > other)  (/repo abbd199, F48):
+   a window whose end is not representable ends after everything *)
+Definition ends_after (outp size other : N) : bool :=
+  match checked_add outp size with Some e => other <? e | None => true end.
+
 Definition windows_overlap (b1 b2 : bank) : res bool :=
   match bk_outp b1, bk_outp b2 with
   | Some o1, Some o2 =>
       match bk_size b1, bk_size b2 with
       | None, None => Ok true
-      | Some s1, None => match checked_add o1 s1 with Some e1 => Ok (o2 <? e1) | None => Panic end
-      | None, Some s2 => match checked_add o2 s2 with Some e2 => Ok (o1 <? e2) | None => Panic end
-      | Some s1, Some s2 =>
-          match checked_add o1 s1 with
-          | None => Panic
-          | Some e1 =>
-              if o2 <? e1 then                                  (* `&&` short-circuits *)
-                match checked_add o2 s2 with Some e2 => Ok (o1 <? e2) | None => Panic end
-              else Ok false
-          end
+      | Some s1, None => Ok (ends_after o1 s1 o2)
+      | None, Some s2 => Ok (ends_after o2 s2 o1)
+      | Some s1, Some s2 => Ok (ends_after o1 s1 o2 && ends_after o2 s2 o1)
       end
   | _, _ => Ok false            (* `continue` *)
   end.
@@ -105,8 +103,8 @@ Definition check_bank_usage (banks : list bank) (c : cursor) : res unit :=
 Definition check_bank_output (mb : N) (b : bank) (pos size : N) (write : bool) : res unit :=
   match (match bk_size b with
          | Some bank_size =>
-             match checked_add pos size with          (* FIXME in the source: plain `+` *)
-             | None => Panic
+             match checked_add pos size with          (* cur_position.checked_add(size).map_or(true, |end| end > bank_size) *)
+             | None => Err
              | Some e => if bank_size <? e then Err else Ok tt
              end
          | None => Ok tt
